@@ -18,7 +18,10 @@
 (*   WAcquire, WCall (one call on the caller's result), WRelease           *)
 (*              per reported test - the block of C12, call by call;        *)
 (*              run() raising => the block of ErrorHolder('broken-runner') *)
-(*   WPut       queue.put(test) in the `finally`, thread ends              *)
+(*   WPut       queue.put(test) in the `finally`                           *)
+(*   WExit      the thread ends (only now join() can return)               *)
+(* raises = exc: run() raises an Exception after its tests (broken runner); *)
+(* raises = base: it raises a BaseException - not reported, put still made  *)
 (*                                                                         *)
 (* The meaning of C13 is written over what the caller's result saw         *)
 (* (`clog`), which threads are alive, who ran what, who was told to stop.  *)
@@ -36,13 +39,13 @@ Broken == 9                       \* index of the 'broken-runner' pseudo test of
 Id(w, i) == 100 * w + 10 * i
 
 VARIABLES
-    script,      \* frozen: sequence (per sub-suite/worker) of [tests: Seq(outcome name), raises: BOOLEAN]
+    script,      \* frozen: sequence (per sub-suite/worker) of [tests: Seq(outcome name), raises: no | exc | base]
     makeFault,   \* frozen: NoFault or k: the make_tests iterator raises after yielding k sub-suites
     intrAt,      \* frozen: NoFault or j: the j-th (0-based) queue.get() call raises KeyboardInterrupt
     mpc,         \* main: [pc, w]  pc \in begin spawn get join sacq scall srel returned raised
     cause,       \* why run() is aborting: none | make | ki
     propagated,  \* the exception that left run(): none | make | ki
-    wpc,         \* per worker: new ready acq call rel put done
+    wpc,         \* per worker: new ready acq call rel put exit done
     wi,          \* per worker: index of the test being reported (Broken = the broken-runner holder)
     wk,          \* per worker: next call of the block
     sem,         \* Free or the holder (Main or worker)
@@ -170,7 +173,7 @@ MStopRel ==
 NextOf(w, i) ==
     LET s == script[w] IN
     IF i <= Len(s.tests) THEN <<"acq", i>>
-    ELSE IF s.raises /\ i # Broken + 1 THEN <<"acq", Broken>>
+    ELSE IF s.raises = "exc" /\ i # Broken + 1 THEN <<"acq", Broken>>
     ELSE <<"put", 0>>
 
 Goto(w, nx) == /\ wpc' = [wpc EXCEPT ![w] = nx[1]]
@@ -219,25 +222,33 @@ WRelease(w) ==
 WPut(w) ==
     /\ wpc[w] = "put"
     /\ queue' = Append(queue, w)
-    /\ wpc' = [wpc EXCEPT ![w] = "done"]
+    /\ wpc' = [wpc EXCEPT ![w] = "exit"]
     /\ UNCHANGED <<script, makeFault, intrAt, mpc, cause, propagated, wi, wk, sem, threads, clog, runBy, told,
                    abortAlive, ngets>>
     /\ Log(w, "put", NoEntry)
+
+WExit(w) ==
+    /\ wpc[w] = "exit"
+    /\ wpc' = [wpc EXCEPT ![w] = "done"]
+    /\ UNCHANGED <<script, makeFault, intrAt, mpc, cause, propagated, wi, wk, sem, queue, threads, clog, runBy, told,
+                   abortAlive, ngets>>
+    /\ Log(w, "exit", NoEntry)
 
 DoWStart   == \E w \in Workers : WStart(w)
 DoWAcquire == \E w \in Workers : WAcquire(w)
 DoWCall    == \E w \in Workers : WCall(w)
 DoWRelease == \E w \in Workers : WRelease(w)
 DoWPut     == \E w \in Workers : WPut(w)
+DoWExit    == \E w \in Workers : WExit(w)
 
 MainStep == MBegin \/ MSpawn \/ MGet \/ MJoin \/ MStopAcq \/ MStopCall \/ MStopRel
-WorkerStep(w) == WStart(w) \/ WAcquire(w) \/ WCall(w) \/ WRelease(w) \/ WPut(w)
+WorkerStep(w) == WStart(w) \/ WAcquire(w) \/ WCall(w) \/ WRelease(w) \/ WPut(w) \/ WExit(w)
 
 Terminal == mpc.pc \in {"returned", "raised"} /\ Alive(wpc) = {}
 Done == Terminal /\ UNCHANGED vars
 
 Next == MBegin \/ MSpawn \/ MGet \/ MJoin \/ MStopAcq \/ MStopCall \/ MStopRel
-        \/ DoWStart \/ DoWAcquire \/ DoWCall \/ DoWRelease \/ DoWPut \/ Done
+        \/ DoWStart \/ DoWAcquire \/ DoWCall \/ DoWRelease \/ DoWPut \/ DoWExit \/ Done
 
 Fairness == WF_vars(MainStep) /\ \A w \in 1..4 : WF_vars(w \in Workers /\ WorkerStep(w))
 
@@ -258,7 +269,7 @@ RECURSIVE BlocksFrom(_, _)
 BlockOf(w, i) == [k \in DOMAIN Calls |-> LET e == CallEntry(w, i, k, 0) IN <<e.call, e.v>>]
 BlocksFrom(w, i) ==
     IF i <= Len(script[w].tests) THEN BlockOf(w, i) \o BlocksFrom(w, i + 1)
-    ELSE IF script[w].raises THEN BlockOf(w, Broken) ELSE <<>>
+    ELSE IF script[w].raises = "exc" THEN BlockOf(w, Broken) ELSE <<>>
 Emitted(w) == BlocksFrom(w, 1)
 Seen(w) == LET s == SelectSeq(clog, LAMBDA e : e.thr = w) IN [j \in DOMAIN s |-> <<s[j].call, s[j].v>>]
 
@@ -279,9 +290,9 @@ OneAtATime ==
           /\ j > 1 /\ clog[j - 1].call = "time" /\ clog[j - 1].thr = clog[j].thr
     /\ \A j \in DOMAIN clog : (j > 1 /\ clog[j].thr # clog[j - 1].thr) => clog[j - 1].call \in {"stopTest", "stop"}
 
-\* a sub-suite whose run() raises is reported as an errored 'broken-runner' test
+\* a sub-suite whose run() raises (an Exception) is reported as an errored 'broken-runner' test
 BrokenReported ==
-    \A w \in Workers : (script[w].raises /\ wpc[w] = "done") =>
+    \A w \in Workers : (script[w].raises = "exc" /\ wpc[w] = "done") =>
         \E j \in DOMAIN clog : clog[j].thr = w /\ clog[j].v = Id(w, Broken) /\ clog[j].call = "addError"
 
 \* abort: every worker alive when the exception arrived has been told to stop, the exception propagates
